@@ -128,6 +128,14 @@ Theorem C10_string_text_ok :
   forall (printable : Z -> bool) (s : list Z), is_string_literal (quote_str printable s) = true.
 Proof. exact string_text_ok. Qed.
 
+(* integers and unsigned numbers: FormatInt(z, 10) is an integer literal, "0x" + FormatUint(z, 16) a
+   hexadecimal literal of the scanner (the digit loops of the model never run out of fuel) *)
+Theorem C10_int_text_ok : forall z : Z, is_integer_literal (dec_text z) = true.
+Proof. exact int_text_ok. Qed.
+
+Theorem C10_hex_text_ok : forall z : Z, is_hex_literal (hex_text z) = true.
+Proof. exact hex_text_ok. Qed.
+
 (* ---- non-vacuity and the constants of the source ---- *)
 (* the default maximum of formatter.go covers the nesting 0..7 (+ the outermost collection) of the
    canonical universe; lowering the constant in the source breaks this obligation *)
@@ -193,6 +201,11 @@ Example C10_ex_complex :
   /\ is_complex_literal (s2z "(1.0E+6+1.5E-7i)") = true /\ is_complex_literal (s2z "(1.0+-0.0i)") = true
   /\ is_complex_literal (s2z "(1E+06+1.5E-07i)") = false.
 Proof. vm_compute. repeat split; reflexivity. Qed.
+Example C10_ex_integers :
+  dec_text (-9223372036854775808) = s2z "-9223372036854775808" /\ dec_text 0 = s2z "0"
+  /\ hex_text 18446744073709551615 = s2z "0xffffffffffffffff" /\ hex_text 0 = s2z "0x0"
+  /\ is_integer_literal (s2z "-0") = false /\ is_integer_literal (s2z "007") = false /\ is_hex_literal (s2z "0xFF") = false.
+Proof. vm_compute. repeat split; reflexivity. Qed.
 Example C10_ex_quotes :
   quote_rune ex_print 10 = s2z "'\n'" /\ quote_rune ex_print 39 = s2z "'\''" /\ quote_rune ex_print 55296 = [39; 65533; 39]
   /\ quote_str (fun _ => false) [97; 34; 255; 195; 169; 0] = s2z """a\""\xff\u00e9\x00""".
@@ -218,3 +231,5 @@ Print Assumptions C10_float_text_refuted_before_fix.
 Print Assumptions C10_complex_text_ok.
 Print Assumptions C10_rune_text_ok.
 Print Assumptions C10_string_text_ok.
+Print Assumptions C10_int_text_ok.
+Print Assumptions C10_hex_text_ok.
